@@ -314,13 +314,12 @@ impl Extensions {
     pub fn with_disallow_cors(&mut self) -> &mut Self {
         self.add_prime(
             prime!(request, _, _, {
-                let missmatch = request
-                    .headers()
-                    .get("origin")
-                    .and_then(|origin| origin.to_str().ok())
-                    .map_or(false, |origin| {
+                // An `origin` which isn't text can't be the request's own origin.
+                let missmatch = request.headers().get("origin").map_or(false, |origin| {
+                    origin.to_str().map_or(true, |origin| {
                         !Cors::is_part_of_origin(origin, request.uri())
-                    });
+                    })
+                });
                 if missmatch {
                     Some(Uri::from_static("/./cors_fail"))
                 } else {
